@@ -138,7 +138,8 @@ func anySwContainer(c psatoken.IClaims) psatoken.ISwComponents {
 }
 
 type c18Subject struct {
-	signer keyPair // for Evidence subjects: the one key that must verify
+	model  *MClaims // what the subject holds, when known by construction
+	signer keyPair  // for Evidence subjects: the one key that must verify
 	desc   string
 	claims psatoken.IClaims
 	ev     *psatoken.Evidence
@@ -160,16 +161,25 @@ func drawC18Subject(t *rapid.T) c18Subject {
 	case "literal":
 		c, ok := m.BuildLiteral()
 		if !ok {
-			c, _ = baseValid(p, 0).BuildLiteral()
+			m = baseValid(p, 0)
+			c, _ = m.BuildLiteral()
 		}
-		return c18Subject{desc: kind, claims: c, sparse: sparse}
+		return c18Subject{model: m, desc: kind, claims: c, sparse: sparse}
 	case "decoded-cbor":
+		if len(m.Comps) > 1 && rapid.IntRange(0, 3).Draw(t, "nilentry") == 0 {
+			m.Comps[rapid.IntRange(0, len(m.Comps)-2).Draw(t, "nilidx")] = &MComp{NilEntry: true}
+		}
 		c, err := psatoken.DecodeClaimsFromCBOR(permutedToken(t, m))
 		if err != nil {
 			c, _ = psatoken.DecodeClaimsFromCBOR(baseValid(p, 2).WireBytes())
 			m = baseValid(p, 2)
 		}
-		return c18Subject{desc: kind, claims: c, sparse: sparse}
+		if p == P2 && (m.Profile == nil || *m.Profile != P2Name) {
+			// without its profile claim the token is profile 1's business:
+			// the model no longer describes what was decoded
+			return c18Subject{desc: kind, claims: c, sparse: sparse}
+		}
+		return c18Subject{model: m, desc: kind, claims: c, sparse: sparse}
 	case "decoded-json":
 		cc := c07Case{Format: "json", Body: *m}
 		if m.Profile != nil {
@@ -242,6 +252,14 @@ func TestC18_ReadOnly(t *testing.T) {
 			if s.ev != nil {
 				target = s.ev
 				ops = append(ops, evidenceReadOps(s.ev, s.keys)...)
+			}
+			// the very first reads already count: what they return must be what
+			// the subject was built from (a read that rewrites its operand on
+			// first use would otherwise go unnoticed)
+			if s.model != nil {
+				if d := checkGettersAgainstModel(s.claims, s.model, false); d != "" {
+					t.Fatalf("C18 violated (%s): the first reads do not return what the claims-set was built from: %s\n  [%s]", s.desc, d, s.model.ClassVector())
+				}
 			}
 			fp0 := visibleFP(target)
 			obs0 := Observe(s.claims)
